@@ -20,23 +20,26 @@ RouteOne(G, r, P) ==
 \* grouped requests: steps 2, 4, 5 of compute_path_dsjctn - all pairwise disjoint combinations; those where every
 \* list is crossed are preferred; else those where only all-LOOSE lists are missed; else DisjunctionError.
 \* With several groups the code prunes candidates per group (step 3) and may give up although a solution
-\* exists: the model then allows the error as well.
-GroupChoices(b, fx) ==
-  LET all  == Solutions(b, fx, "any")
+\* exists: the model then allows the error as well.  Between two parallel link pairs the code pairs the directions
+\* by its own convention: combinations that are not surely overlapping may be taken, and the error is allowed when no
+\* combination is surely disjoint.
+GroupChoices(G, b, fx) ==
+  LET all  == Solutions(G, b, fx, "any", FALSE)
       good == {a \in all : \A i \in DOMAIN a : Crosses(a[i], b.reqs[i].inc)}
       alt  == {a \in all : \A i \in DOMAIN a : HasStrict(b.reqs[i]) => Crosses(a[i], b.reqs[i].inc)}
   IN  IF OneGroup(b) /\ good # {} THEN good ELSE alt
 
 ErrOutcome == [err |-> 1, res |-> <<>>]
-ModelOutcomes(G, b, fx) ==
-  LET idx     == 1..Len(b.reqs)
+ModelOutcomes(G, b0, fx) ==
+  LET b       == CleanBatch(b0)                   \* correct_json_route_list: unknown LOOSE hops are skipped first
+      idx     == 1..Len(b.reqs)
       free    == idx \ Grouped(b)
       one     == [i \in free |-> RouteOne(G, b.reqs[i], fx[i].P)]
       frees   == {f \in [free -> UNION {one[i] : i \in free}] : \A i \in free : f[i] \in one[i]}
-      choices == GroupChoices(b, fx)
+      choices == GroupChoices(G, b, fx)
       build(a, f) == [err |-> 0, res |-> [i \in idx |-> IF i \in free THEN f[i] ELSE Found(a[i])]]
   IN  IF b.groups = <<>> THEN {build(<<>>, f) : f \in frees}
-      ELSE (IF choices = {} \/ ~OneGroup(b) THEN {ErrOutcome} ELSE {})
+      ELSE (IF choices = {} \/ ~OneGroup(b) \/ Solutions(G, b, fx, "strong", TRUE) = {} THEN {ErrOutcome} ELSE {})
            \cup {build(a, f) : a \in choices, f \in frees}
 
 CONSTANTS Graphs,          \* set of graphs [n, arcs, len]
@@ -59,7 +62,7 @@ Next == Route
 Spec == Init /\ [][Next]_vars
 
 Answered == phase = "answered"
-Req(i)   == batch.reqs[i]
+Req(i)   == Clean(batch.reqs[i])
 Idx      == 1..Len(batch.reqs)
 Free     == Idx \ Grouped(batch)
 
@@ -74,11 +77,11 @@ BlockedExactlyWhenNoRoute == Answered /\ out.err = 0 => \A i \in Free : BlockedE
 BlockingReasonNamesCause  == Answered /\ out.err = 0 => \A i \in Free : BlockingReason(fx[i], out.res[i])
 ReverseVisitsSameSites    == Answered /\ out.err = 0 => \A i \in Idx : ReverseMirrors(out.res[i])
 \* ---- the clauses of C12
-DisjointGroupsShareNoLink == Answered => GroupsLinkDisjoint(batch, out)
+DisjointGroupsShareNoLink == Answered => GroupsLinkDisjoint(g, batch, out)
 GroupedRequestsAreRouted  == Answered => GroupedAreRouted(batch, out)
 ErrorOnlyWithGroups       == Answered => ErrorOnlyForGroups(batch, out)
-PairIsComplete            == Answered => PairComplete(batch, fx, out)
-ErrorWhenNothingFits      == Answered => ErrorWhenNoSolution(batch, fx, out)
+PairIsComplete            == Answered => PairComplete(g, batch, fx, out)
+ErrorWhenNothingFits      == Answered => ErrorWhenNoSolution(g, batch, fx, out)
 \* ---- the judgement used on observed routes accepts every outcome of the model
 JudgeAcceptsModel         == Answered => Judge(g, batch, fx, out, 0) = {}
 ==============================================================================
